@@ -560,6 +560,16 @@ func (fl *Flow) condInto(fs *FactSet, cond ast.Expr, val bool) {
 	cond = ast.Unparen(cond)
 	origin := fl.m.pos(cond.Pos())
 	switch x := cond.(type) {
+	case *ast.Ident:
+		// a named boolean (keyExhausted := depth >= len(keyS)): while the alias fact is alive the
+		// variables of its definition are unchanged, so its outcome is the outcome of the definition
+		if v, _ := fl.info.ObjectOf(x).(*types.Var); v != nil {
+			if def, ok := fs.aliasOf(v); ok {
+				if _, isIdent := ast.Unparen(def).(*ast.Ident); !isIdent {
+					fl.condInto(fs, def, val)
+				}
+			}
+		}
 	case *ast.UnaryExpr:
 		if x.Op == token.NOT {
 			fl.condInto(fs, x.X, !val)
